@@ -36,6 +36,7 @@ Print Assumptions esc_odf_attr_safe_control_free.
 (* the restriction is necessary: a TAB breaks attribute safety of the OpenDocument escaper *)
 Theorem esc_odf_attr_tab_refuted : xml_safe true (esc esc_odf [9]) = false.
 Proof. vm_compute. reflexivity. Qed.
+Print Assumptions esc_odf_attr_tab_refuted.
 
 Example attr_sample : xml_safe true (esc esc_opml [34; 60; 38; 39; 10]) = true /\ xml_safe true [34] = false.
 Proof. vm_compute. split; reflexivity. Qed.
